@@ -428,6 +428,15 @@ def run_case(case):
         got = stoch.full_digest(h)
         got["reinit_log"] = list(h.model.reinit_log)
         got["start_err"] = repr(err) if err else None
+        # "schedules exactly one warm-up" (an absolute statement: a fresh run and a re-initialised run that both
+        # lack it would agree with each other)
+        if h.sim.run_state == RunState.ENDED:
+            nw = sum(1 for e in h.rec.log if e[0] == "WARMUP")
+            rp = prog["rep"]
+            reached = dec_ref(rp["warmup"]) <= dec_ref(rp["length"])      # (a warm-up beyond the end never comes)
+            if nw != (1 if reached else 0):
+                out.fail("warm-up-notified-%d-times" % min(nw, 2), {"notifications": [e[0] for e in h.rec.log][:8],
+                                                                    "replication": prog["rep"]})
         for key in ("start_err", "trace", "clock", "state", "draws", "notifications", "stats", "reinit_log"):
             if got.get(key) != want.get(key):
                 detail = {"prior": kind}
